@@ -73,6 +73,90 @@ PROPS = {
         "trivial_sigs": set(),
         "rule": "as C02, plus ring-level contains/intersects-segment exports; non-trivial = distinct pair judged by the exact oracle",
     },
+    "C05": {
+        "suites": ["c05docs", "c05obj"],
+        "level": "proof", "proof_module": "GeoProofs.Props.C05", "theorems": [],
+        "trivial_sigs": set(),
+        "rule": "outcomes (value / error enum / panic / timeout) of Parse on grammar-generated documents, structured mutations, arbitrary bytes, "
+                "truncations and splices, and of every query method on ordered pairs of objects of all kinds (empty collections, zero-length "
+                "segments, repeated vertices, nested features), each in a worker process under a per-op watchdog; non-trivial = distinct op",
+    },
+    "C06": {
+        "suites": ["c06"],
+        "level": "proof", "proof_module": "GeoProofs.Props.C06", "theorems": [],
+        "trivial_sigs": set(),
+        "rule": "grammar-generated accepted documents (9 types + Circle convention, nesting, 2-4-D and mixed positions, duplicate/escaped keys, "
+                "foreign members, whitespace) under random options: implementation JSON compared byte-for-byte with the model's writer, and the "
+                "round-trip clauses (re-parse accepted, same kind, fixpoint, information preserved, same answers) judged on the implementation "
+                "with encoding/json as the reference decoder; non-trivial = distinct document",
+    },
+    "C07": {
+        "suites": ["c07"],
+        "level": "proof", "proof_module": "GeoProofs.Props.C07", "theorems": [],
+        "trivial_sigs": set(),
+        "rule": "well-formed documents must be accepted (and decode as the reference reader says), documents with one of the listed structural "
+                "defects must be rejected; plus arbitrary bytes; non-trivial = distinct document",
+    },
+    "C08": {
+        "suites": ["c08"],
+        "level": "proof", "proof_module": "GeoProofs.Props.C08", "theorems": [],
+        "trivial_sigs": set(),
+        "rule": "each document parsed under a matrix of option sets (index thresholds 0,1,n,n+1,64 x both kinds; simple points; rects): JSON, "
+                "attributes and predicate answers against probe objects must be identical across the matrix; require-valid judged as a filter",
+    },
+    "C09": {
+        "suites": ["c09"],
+        "level": "proof", "proof_module": "GeoProofs.Props.C09", "theorems": [],
+        "trivial_sigs": set(),
+        "rule": "ordered pairs of objects of all kinds built by the constructors (collections nested, features, empties): six predicate answers "
+                "compared with the model, the algebra laws judged on the implementation (xalgebra), wrapper transparency by answer groups "
+                "(Feature vs geometry, Rect vs 5-point polygon, SimplePoint vs Point), circles by implementation-only laws",
+    },
+    "C10": {
+        "suites": ["c10"],
+        "level": "proof", "proof_module": "GeoProofs.Props.C10", "theorems": [],
+        "trivial_sigs": set(),
+        "rule": "collections of all five kinds (0..70 children, nested, empty children) against probe objects, child searches with early stop, "
+                "the composition laws judged by brute force over the children, and the same text parsed under thresholds 0,1,n-1,n,64 with "
+                "identical answers required",
+    },
+    "C11": {
+        "suites": ["c11"],
+        "level": "proof", "proof_module": "GeoProofs.Props.C11", "theorems": [],
+        "trivial_sigs": set(),
+        "rule": "objects of all kinds from constructors and from parsed documents on regime E: Empty/Valid/Rect/Center/NumPoints compared with the "
+                "model and judged against the direct min/max specification over the positions of the non-empty parts",
+    },
+    "C17": {
+        "suites": ["c17"],
+        "level": "proof", "proof_module": "GeoProofs.Props.C17", "theorems": [],
+        "trivial_sigs": set(),
+        "rule": "objects from every public constructor with special floats (NaN, +-Inf, -0, extremes, denormals), feature member texts (objects, "
+                "blank objects, non-objects, reserved key 'feature'), nested collections: JSON()/String()/MarshalJSON()/AppendJSON(nil) equal, "
+                "AppendJSON(prefix) with three spare capacities, encoding/json.Valid, type and coordinate depth; bytes compared with the model's writer",
+    },
+    "C13": {
+        "suites": ["c13"],
+        "level": "other", "proof_module": "GeoProofs.Props.C13", "theorems": [],
+        "trivial_sigs": set(),
+        "rule": "numeric validation on the implementation against an independent 3-D vector distance: probes at r(1+-10^-k) along random bearings, "
+                "point kinds and operand orders, monotonicity, circle-circle relations, JSON round trip, polygon ring for every step count",
+        "explanation": "theorems over the reals about the translated formulas (when discharged) plus numeric validation of the float code; tolerances cannot be proved (Lean has no float theory)",
+    },
+    "C14": {
+        "suites": ["c14"],
+        "level": "other", "proof_module": "GeoProofs.Props.C14", "theorems": [],
+        "trivial_sigs": set(),
+        "rule": "numeric validation: for random centres (poles, antimeridian) and radii, disc samples at 64 bearings x 4 distances lie inside RectFromCenter within 1 cm; world bounds; widening; no NaN",
+        "explanation": "partial theorems over the reals about the translated RectFromCenter plus numeric validation of longitude coverage and NaN-freedom",
+    },
+    "C15": {
+        "suites": ["c15"],
+        "level": "other", "proof_module": "GeoProofs.Props.C15", "theorems": [],
+        "trivial_sigs": set(),
+        "rule": "numeric validation of symmetry, range, destination/distance/bearing round trips, monotone haversine, conversions, normalisation, semicircles",
+        "explanation": "theorems over the reals about the translated formulas plus numeric validation of the tolerance clauses",
+    },
     "C12": {
         "suites": ["c12"],
         "level": "proof",
@@ -108,6 +192,14 @@ def _kind_of(ops, i, ident):
 
 def mask_spec(pid, optoks, spec):
     """each property judges only its own part of a combined op"""
+    if optoks and optoks[0].startswith("oparse"):
+        if optoks[0] == "oparserv":
+            return spec if pid == "C08" else "-"
+        return spec if pid in ("C07", "C10", "C11", "C08") else "-"
+    if optoks and optoks[0] == "oattrs":
+        return spec if pid == "C11" else "-"
+    if optoks and optoks[0] == "opred":
+        return spec if pid == "C10" else "-"
     if optoks and optoks[0] == "pred":
         if pid == "C02":
             return "-" + spec[1:]
@@ -129,6 +221,16 @@ def classify_finding(pid, ops, i, impl, spec, sig, known):
     toks = ops[i].split()
     if toks[0] == "same":
         toks = toks[2:]
+    if toks[0] == "oparsewfmix" and impl == "err coordsInvalid":
+        for kf in known:
+            if kf.get("op") == "oparsewfmix":
+                return kf["id"]
+        return None
+    if toks[0] == "oattrs" and sig.endswith(":holeout"):
+        for kf in known:
+            if kf.get("op") == "oattrs" and kf.get("signature") == "holeout":
+                return kf["id"]
+        return None
     if toks[0] != "pred":
         return None
     ka, kb = _kind_of(ops, i, toks[1]), _kind_of(ops, i, toks[2])
@@ -149,7 +251,63 @@ def classify_finding(pid, ops, i, impl, spec, sig, known):
     return matched
 
 
+COLL_CTORS = ("mp", "mls", "mpg", "gc", "fc")
+
+
+def _onew_of(ops, i, ident):
+    for j in range(i - 1, -1, -1):
+        t = ops[j].split()
+        if len(t) > 2 and t[0] == "onew" and t[1] == ident:
+            return j, t
+        if t and t[0] == "oreset":
+            break
+    return None, None
+
+
+def _is_coll(ops, i, ident, through_feature=True):
+    j, t = _onew_of(ops, i, ident)
+    if t is None:
+        return False
+    if t[2] in COLL_CTORS:
+        return True
+    if through_feature and t[2] == "feature":
+        return _is_coll(ops, j, t[3])
+    return False
+
+
+def _is_feature_of_coll(ops, i, ident):
+    j, t = _onew_of(ops, i, ident)
+    return t is not None and t[2] == "feature" and _is_coll(ops, j, t[3])
+
+
+def classify_group_c09(ops, members, impl, model, known_all):
+    known = [k for k in known_all["open"] if k["property"] == "C09" and k.get("op") == "group-feature-of-collection"]
+    if not known:
+        return None
+    for (i, _) in members:
+        if impl[i] != model[i].split(" | ")[0]:
+            return None
+    feat = False
+    other_coll = True
+    for (i, _) in members:
+        toks = ops[i].split()[2:]
+        if toks[0] != "opred":
+            return None
+        a, b = toks[1], toks[2]
+        if _is_feature_of_coll(ops, i, a):
+            feat = True
+            other_coll = other_coll and _is_coll(ops, i, b)
+        elif _is_feature_of_coll(ops, i, b):
+            feat = True
+            other_coll = other_coll and _is_coll(ops, i, a)
+    if feat and other_coll:
+        return known[0]["id"]
+    return None
+
+
 def classify_group(pid, ops, members, impl, model, known_all):
+    if pid == "C09":
+        return classify_group_c09(ops, members, impl, model, known_all)
     """C12: answers differ inside a transformation group. Attributed to a listed finding only if
     every member is pinned behaviour (impl == model) and only the contains answer varies, for a
     receiver/argument class listed for this property."""
@@ -174,3 +332,20 @@ def classify_group(pid, ops, members, impl, model, known_all):
 
 HOOK_COMMITS = ["f06195a"]
 NOT_YET = {}
+
+
+def classify_xfail(pid, ops, i, impl, known):
+    """failures of implementation-only oracle ops, matched by their message signature"""
+    for kf in known:
+        rx = kf.get("xfail_regex")
+        if rx:
+            import re
+            if re.search(rx, impl):
+                return kf["id"]
+            continue
+        pat = kf.get("xfail_prefix")
+        if pat and impl.startswith(pat):
+            need = kf.get("xfail_any_of", [])
+            if not need or any(n in impl for n in need):
+                return kf["id"]
+    return None
